@@ -471,6 +471,10 @@ def mac_events(rng, tier):
                 try:
                     m = MultipleAccessChannelModel(encoders=encs, decoders=decs, channel=Ch(calls), power_constraint=Con(calls, box), num_devices=U)
                     xs = [torch.tensor([[float(rng.randrange(-5, 6)) for _ in range(3)] for _ in range(2)]) for _ in range(U)]
+                    if len(evs) % 3 == 1:
+                        # double-precision users whose signals carry an integer beyond 2^24: the superposition keeps their precision
+                        xs = [x.double() for x in xs]
+                        xs[0][0, 0] = 16777217.0
                     xs0 = [x.clone() for x in xs]
                     m(xs)
                 except Exception as ex:
